@@ -465,15 +465,126 @@ def jobs(tier: str):
     for n in range(0, b["text_all_symbolic_len"] + 1):
         out.append(dict(name=f"text/all{n}", layer="text", prefix="", n=n, weight=2 ** n))
     out.append(dict(name="twin/text", layer="text", prefix="bytes=", n=1, twin=True))
+    for iface in ("asgi", "wsgi"):
+        for n in (1, 2):
+            out.append(dict(name=f"handover/{iface}/bytes+{n}", layer="handover", iface=iface, n=n, weight=10 ** n))
     return out
 
 
+# ------------------------------------------------------------------ layer 3: the header text that reaches parse_range through a file response
+class _Stop(Exception):
+    pass
+
+
+def handed_over(iface: str, header_bytes):
+    """the text FileResponse hands to parse_range for these Range header bytes (WSGI servers deliver the bytes as a Latin-1 str already)"""
+    import baize.asgi.responses as A
+    import baize.wsgi.responses as W
+    from engine.vloop import drive
+    seen = []
+
+    def spy(text, size):
+        seen.append(text)
+        raise _Stop()
+
+    class St:
+        st_mode = 0o100644
+        st_size = 100
+        st_mtime = st_ctime = 1700000000.0
+    orig = FileResponseMixin.__dict__["parse_range"]
+    FileResponseMixin.parse_range = staticmethod(spy)
+    try:
+        if iface == "asgi":
+            async def send(m):
+                pass
+
+            async def receive():
+                return {"type": "http.disconnect"}
+            drive(A.FileResponse("/d/f.bin", stat_result=St())({"type": "http", "method": "GET", "headers": [(b"range", header_bytes)]}, receive, send))
+        else:
+            text = header_bytes.decode("latin-1")
+            list(W.FileResponse("/d/f.bin", stat_result=St())({"REQUEST_METHOD": "GET", "HTTP_RANGE": text}, lambda s_, h_, e_=None: None))
+    except _Stop:
+        pass
+    finally:
+        FileResponseMixin.parse_range = orig
+    return seen
+
+
+def job_handover(job) -> report.JobResult:
+    from engine.symseq import SBytes, _items_of
+    res = report.JobResult.new(job["name"])
+    twin = job.get("twin", False)
+    iface, n = job["iface"], job["n"]
+    eng = Engine(budget_s=600)
+    free = SBytes.fresh(n, "h", 0, 255, eng.solver)
+    hdr = SBytes(list(b"bytes=0-1,") + free.items)
+
+    def fn():
+        return handed_over(iface, hdr)
+
+    def on_path(e, r):
+        kind, v = r
+        klass = detail = None
+        if kind == "exc":
+            klass, detail = f"exception:{type(v).__name__}", repr(v)
+        elif twin:
+            klass = "twin-assert-false"
+        elif len(v) != 1:
+            klass, detail = "parse_range-not-called-once", str(len(v))
+        else:
+            got = _items_of(v[0])
+            if len(got) != len(hdr.items):
+                klass, detail = "header-text-changed-on-the-way", f"{len(hdr.items)} header bytes became {len(got)} characters"
+            else:
+                diffs = [term_of(a) != term_of(b) for a, b in zip(got, hdr.items) if not z3.eq(term_of(a), term_of(b))]
+                if diffs and e.check(z3.Or(diffs)):
+                    klass = "header-text-changed-on-the-way"
+        if klass != "header-text-changed-on-the-way" or detail:
+            e.last_sat = False
+        m = e.witness()
+        raw = bytes(conc(hdr, m))
+        wit = {"iface": iface, "range_header_bytes_hex": raw.hex()}
+        cp = concrete_handover(wit)
+        if klass is not None:
+            res.violation(f"C03/handover/{iface}/{klass.split(':')[0]}", wit, f"{klass} {detail or ''}; concrete: {cp}", (cp is not None) or twin)
+            return
+        res.kind("accepted")
+        if cp is not None:
+            res["harness_errors"].append(f"symbolic path holds but the concrete run fails: {wit}: {cp}")
+        res["validated"] += 1
+        res.sample(wit, limit=1)
+    eng.explore(fn, on_path)
+    res.absorb_engine(eng)
+    return res
+
+
+def concrete_handover(w) -> Optional[str]:
+    prev = Engine.cur
+    Engine.cur = None
+    try:
+        raw = bytes.fromhex(w["range_header_bytes_hex"])
+        try:
+            seen = handed_over(w["iface"], raw)
+        except Exception as ex:  # noqa: BLE001
+            return f"exception {type(ex).__name__}: {ex}"
+        if seen != [raw.decode("latin-1")]:
+            return f"parse_range received {seen!r} for header bytes {raw!r}"
+        return None
+    finally:
+        Engine.cur = prev
+
+
 def run_job(job):
-    return {"ints": job_ints, "tmpl": job_tmpl, "text": job_text}[job["layer"]](job)
+    return {"ints": job_ints, "tmpl": job_tmpl, "text": job_text, "handover": job_handover}[job["layer"]](job)
 
 
 def replay(rec) -> int:
     w = rec["witness"]
+    if "range_header_bytes_hex" in w:
+        cp = concrete_handover(w)
+        print(f"replay C03: {w} -> {cp}")
+        return 1 if cp else 0
     lenient = parse_specs_concrete(w["header"]) is None
     cv = concrete_verdict(w["header"], w["size"], lenient)
     print(f"replay C03: parse_range({w['header']!r}, {w['size']}) -> {real_outcome(w['header'], w['size'])}; verdict={cv}")
